@@ -2,6 +2,7 @@
 import os, json, subprocess, re
 
 COMMON_TRUST = [
+    "T2 translator: lib/rs2coq.py (Rust subset -> Gallina over Base/RustInt.v) regenerates coq/Gen/Funcs.v from the source text on every run; validated on every run by executing the extracted translation and the implementation on the same arguments (op t2)",
     "Coq 8.16.1 kernel (coqc), vm_compute for finite sweeps; no native_compute",
     "hand-written Gallina model of the Rust code (coq/Model), tied to /repo by the correspondence run of this check (differential, generator-bounded)",
     "T1 translator: harness `tables` dump of the crate's constants into coq/Gen/Tables.v (rustc + hooks under cfg(sonic_rs_verif))",
@@ -28,7 +29,7 @@ prop("C02",
      rule="structured documents (1/3 valid, 2/3 mutated once or twice) + nesting depth around both limits + exhaustive token sequences over 16 tokens (length<=3 quick, <=5 thorough) x {LazyValue, OwnedLazyValue, IgnoredAny, Value, serde_json::Value, Vec<Value>, HashMap<String,Value>} x {from_slice, from_str, from_reader, Deserializer::from_json over Bytes/FastStr}; non-trivial = distinct input longer than 2 bytes",
      assumptions=["simdutf8 decides UTF-8 validity (modelled by Spec.Ref.utf8_valid; compared on every case)", "completeness of the container skipper is validated, not yet proved (skip_value_sound is proved)"])
 
-prop("C10",
+prop("C10", funcs=True,
      rule="well-formed duplicate-free generated documents (depth<=4, strings with escapes/multibyte/structural bytes, leading pad 0..69 to move the 64-byte blocks) x up to 6 valid paths + perturbed paths x 15 lookup variants (checked/unchecked x 5 carriers, LazyValue/OwnedLazyValue/Value pointer, Value::get chain); plus block-edge documents with quotes/backslashes/brackets inside strings; non-trivial = non-empty path",
      assumptions=["the 64-byte bitmap bookkeeping of skip_container_loop is tied to the scalar counting model by the correspondence (unit hooks + unchecked API), not by proof"])
 prop("C11",
@@ -43,12 +44,12 @@ prop("C14",
 
 prop("C09",
      rule="sweep: literal length L x position p (around the 32/64-byte edges) x 34 byte classes (every escape form, bad escapes, lone/swapped surrogates, controls, valid and invalid multi-byte UTF-8) x embedding offset 0..64 x 13 decoders (String, &str, Cow field, in-place Value, copying Value, map key, object key, object-iterator key, LazyValue::as_str, get+as_str, IgnoredAny, lossy String/Value); code points through \\u escapes (boundaries + 3000 sampled; all 1,114,112 in the thorough tier); hooks hex_to_u32_nocheck / codepoint_to_utf8; generated literals; non-trivial = literal longer than 2 bytes",
-     unit_ops={"hex4", "utf8enc"},
+     unit_ops={"hex4", "utf8enc", "t2"}, funcs=True,
      assumptions=["the block structure of parse_string_raw/parse_string_escaped/parse_string_inplace is tied to the scalar decoders by the sweep (and by the generic block-scan theorem), not transcribed line by line"])
 
 prop("C03",
      rule="generated well-formed documents with duplicates allowed (1/10 mutated: every driver must reject) x 11 parse drivers (in-place from_slice/from_str, copying parser as Vec element / struct field / map value / second stream document / Bytes carrier, use_rawnumber, utf8_lossy on valid text, clone) + alignment sweep of one document behind 0..69 spaces; canonical tree dump (kinds, order, duplicates, decoded strings, number class and bits) compared with the dump of the reference parse; hook Meta pack/unpack on random and boundary words",
-     unit_ops={"metapack"},
+     unit_ops={"metapack", "t2"}, funcs=True,
      assumptions=["numbers are classified and valued by Spec/Num.v (decimal value, round half even); its agreement with Rust's parser is C07's subject"])
 prop("C06",
      feature_builds=["sort_keys", "arbitrary_precision"],
@@ -60,7 +61,7 @@ prop("C13",
 
 prop("C07",
      rule="literals: boundary pool, every digit count (1..120 quick / 1..800 thorough) as integer / negative / pure fraction / mixed, every power of ten -400..400, 19/20-digit and 128-bit integer boundaries, exact decimal expansions of midpoints between adjacent doubles (exact / just above / just below), long digit runs at every alignment of the 16-byte fraction reader, huge and zero-padded exponents, generated numbers; each through sonic_number::parse_number, the DOM, and 12 typed targets; simd_str2int on random 16-byte windows; every literal also through Rust's str::parse::<f64> as a second opinion on the specification",
-     unit_ops={"str2int"}, guards=True,
+     unit_ops={"str2int", "t2"}, guards=True, funcs=True,
      assumptions=["Spec/Num.v (exact decimal value, round half to even by integer arithmetic) is the definition of 'nearest f64'; it is compared with Rust's str::parse::<f64> on every finite literal of every run (op numstd) but its equality with Flocq's rounding operator is not proved",
                   "the Eisel-Lemire and big-decimal paths are not modelled: they are covered by the correspondence against the specification only"])
 prop("C08",
@@ -88,14 +89,14 @@ prop("C19",
 
 prop("C17",
      rule="primitives: eq/le/gt + bitmask on u8x16/u8x32/u8x64/i8x16/i8x32/i8x64 with every byte value as focus lane (plus neighbours, boundary bytes, random), load/store, splat of all 256 bytes, BitMask helpers on u16/u32/u64, prefix_xor, get_nonspace_bits, get_escaped_branchless_u32/u64, get_string_bits through the hooks - both builds (target-cpu=native: AVX2+PCLMUL; baseline x86-64: SSE2 + portable fallbacks) against the lane-wise model; then the full quick suites of C02 C03 C05 C09 C10 C12 through both builds, result lines compared one by one",
-     baseline_build=True, cross_build=["C02", "C03", "C05", "C09", "C10", "C12"],
+     baseline_build=True, cross_build=["C02", "C03", "C05", "C09", "C10", "C12"], funcs=True, unit_ops={"t2"},
      assumptions=["the lane-wise meaning of the Intel intrinsics is observed on this CPU only; NEON is not built here"])
 
 prop("C18",
      rule="exhaustive DFS over the interleavings of 1-3 threads at the granularity of the atomic operations of the two caches (every load and compare-exchange is a yield point of the shim; a weak compare-exchange adds a spurious-failure choice): readers of one shared LazyValue (escaped string -> Inner::parse_from) and of one shared OwnedLazyValue (LazyRaw::load) replayed step by step in the model (per-thread hit / miss+win / miss+lose); mixed readers, cloners and early droppers judged on values and on the allocation ledger (tracked allocations of the worker threads and of the shared value return to the baseline); quick tier caps each scenario at 3000 schedules",
      assumptions=["sequential consistency: the Acquire/Release/AcqRel annotations are not checked against the C++11 memory model", "clone/drop steps are not in the model (they are covered by the ledger on the real code)"])
 
-prop("C01", guards=True,
+prop("C01", guards=True, funcs=True,
      rule="generated documents: valid / mutated once / mutated twice / truncated (2000 quick, 20000 thorough) plus boundary-size inputs (0..4097 bytes of one byte value) through every safe entry point: 20 parse targets x carriers, get / get_many / get_by_schema with a generated path, lazy and owned-lazy accessors, views, iterators, stream, serialization and Display/Debug of whatever was produced and of every error; verdict per input: no panic, and the tracked allocations of the call return to the baseline; nesting of 200000 levels in a child process must be an error, not a stack overflow",
      assumptions=["PARTIAL: memory errors that do not crash are not observable by this check (no sanitizer in the quick tier)"])
 
